@@ -22,6 +22,11 @@ Accepted(c, b) ==
    nattrs |-> Len(as),
    exposed |-> [i \in 1..Len(e) |-> [type |-> e[i].type, value |-> Value(b, e[i]), off |-> e[i].off]],
    plan |-> IntegrityPlan(b),
+   \* responses derived from a request (only requests: the constructors document a panic otherwise)
+   resp |-> IF ClassOf(U16(b, 1)) = "request"
+              THEN [success |-> ResponseHeader(b, "success"), bad |-> ErrorResponse(b, 400, <<>>),
+                    unk |-> ErrorResponse(b, 420, <<6, 32802, 65535>>), unk0 |-> ErrorResponse(b, 420, <<>>)]
+              ELSE [none |-> TRUE],
    police |-> IF Has(c, "police") THEN [k \in 1..Len(c.police) |-> Police(b, SeqToSet(c.police[k][1]), SeqToSet(c.police[k][2]))] ELSE <<>>]
 
 Cuts(b) == [n \in 1..Len(b) |-> LET p == SubSeq(b, 1, n - 1) IN [parse |-> Parse(p), hdr |-> HeaderVerdict(p).ok]]
